@@ -3,6 +3,7 @@
 MODULES = {
     "C01": ["contracts.c01_grid"],
     "C02": ["contracts.c02_itk"],
+    "C03": ["contracts.c03_derived"],
     "C08": ["contracts.c08_linalg"],
     "C15": ["contracts.c08_linalg"],
 }
